@@ -34,13 +34,22 @@ func firstCallOrders(a, b int) [][]string {
 }
 
 func buildOrder(order []string, reply string, park bool) RScenario {
+	return buildOrderH(order, reply, park, false)
+}
+
+// buildOrderH: with holdRun, Run is held at spiffe.run.afterCloseReady and released at the end.
+func buildOrderH(order []string, reply string, park, holdRun bool) RScenario {
 	var sc RScenario
 	n := 0
 	var parked []int
 	for _, o := range order {
 		switch o {
 		case "run":
-			sc.Ops = append(sc.Ops, ROp{Op: "run"})
+			if holdRun {
+				sc.Ops = append(sc.Ops, ROp{Op: "runp"})
+			} else {
+				sc.Ops = append(sc.Ops, ROp{Op: "run"})
+			}
 		case "reply":
 			sc.Ops = append(sc.Ops, ROp{Op: reply})
 		case "g":
@@ -55,6 +64,9 @@ func buildOrder(order []string, reply string, park bool) RScenario {
 			sc.Ops = append(sc.Ops, ROp{Op: "ready"})
 			n++
 		}
+	}
+	if holdRun {
+		sc.Ops = append(sc.Ops, ROp{Op: "q"}, ROp{Op: "rrel"})
 	}
 	if park {
 		sc.Ops = append(sc.Ops, ROp{Op: "q"})
@@ -98,6 +110,11 @@ func specialReady() []RScenario {
 		ops("run", "ok", "getp", "step", "fail", "get", "q", "rel0"),
 		ops("run", "ok", "step", "getp", "get", "q", "ok", "q", "rel0", "get"),
 		ops("get", "run", "ok", "step", "ok", "get", "step", "ok", "get"),
+		// Run held between close(readyCh) and Unlock: Ready returns, readers wait for the lock
+		ops("get", "ready", "runp", "ok", "get", "q", "rrel"),
+		ops("runp", "fail", "get", "ready", "q", "rrel"),
+		ops("getp", "runp", "ok", "ready", "q", "rrel", "q", "rel0"),
+		ops("runp", "get", "ok", "q", "run2", "rrel", "get"),
 	}
 }
 
